@@ -133,6 +133,22 @@ def eigen(inp):
         method, P, NSIG, n, len(got), float(np.max(np.abs(np.asarray(got) / want - 1))) if len(got) == n else "n/a")
 
 
+def _arma2psd_direct(a, b, rho, T, n):
+    """rho/T * |B(f)|^2 / |A(f)|^2 on the grid k/n, by direct polynomial evaluation (NOT the library routine: the class-level
+    specification is this formula, and a defect inside arma2psd must not hide behind its own output)"""
+    k = np.arange(n)
+
+    def poly(c):
+        c = np.concatenate(([1.0], np.asarray(c)))
+        return np.array([np.sum(c * np.exp(-2j * np.pi * kk / n * np.arange(len(c)))) for kk in k])
+    want = np.full(n, float(np.real(rho)) / T)
+    if b is not None:
+        want = want * np.abs(poly(b)) ** 2
+    if a is not None:
+        want = want / np.abs(poly(a)) ** 2
+    return want
+
+
 def place(inp):
     """class __call__: psd[i] = (fold) x (function result at the reported frequency)"""
     import spectrum
@@ -165,22 +181,22 @@ def place(inp):
             want = two
     elif cls == "pburg":
         a, rho, ref = spectrum.arburg(data, 4)
-        want = fold(spectrum.arma2psd(a, None, rho, fs, n))
+        want = fold(_arma2psd_direct(a, None, rho, fs, n))
     elif cls == "pyule":
         a, rho, ref = spectrum.aryule(data, 4)
-        want = fold(spectrum.arma2psd(a, None, rho, fs, n))
+        want = fold(_arma2psd_direct(a, None, rho, fs, n))
     elif cls == "pcovar":
         a, e = spectrum.arcovar(data, 4)
-        want = fold(spectrum.arma2psd(a, None, e / (len(data) - 4), fs, n))
+        want = fold(_arma2psd_direct(a, None, e / (len(data) - 4), fs, n))
     elif cls == "pmodcovar":
         a, e = spectrum.modcovar(data, 4)
-        want = fold(spectrum.arma2psd(a, None, e / (2 * (len(data) - 4)), fs, n))
+        want = fold(_arma2psd_direct(a, None, e / (2 * (len(data) - 4)), fs, n))
     elif cls == "parma":
         a, b, rho = spectrum.arma_estimate(data, 4, 3, 8)
-        want = fold(spectrum.arma2psd(a, b, rho, fs, n))
+        want = fold(_arma2psd_direct(a, b, rho, fs, n))
     elif cls == "pma":
         b, rho = spectrum.ma(data, 3, 8)
-        want = fold(spectrum.arma2psd(None, b, rho, fs, n))
+        want = fold(_arma2psd_direct(None, b, rho, fs, n))
     elif cls == "pminvar":
         want = fold(spectrum.minvar(data, 4, sampling=fs, NFFT=n)[0])
     elif cls in ("pmusic", "pev"):
